@@ -1081,6 +1081,15 @@ def make_client(bc, cl_spec, domain):
     saved_getrandbits = _random.getrandbits
     _random.getrandbits = _random._inst.getrandbits      # run() seeds the module RNG and draws aes_rand from it
     try:
+        if isinstance(cl_spec["bid"], int) and (cl_spec["bid"] // 2) % 2 == 0:
+            # an earlier session of the SAME client object on the same configuration object under another beacon id (and other
+            # names): nothing of it may survive into the session under test (keys, metadata, transforms are per session)
+            try:
+                client.run(bconfig=bc, dry_run=True, domain=domain, beacon_id=(cl_spec["bid"] ^ 0x10) & 0x7FFFFFFE, pid=cl_spec["pid"] + 1,
+                           computer="WARMUP", user="warm", process="up.exe", internal_ip="10.9.8.7",
+                           arch=cl_spec["arch"], barch=cl_spec["barch"], high_integrity=not cl_spec["hi"], sleeptime=0, jitter=0)
+            except Exception:  # noqa: BLE001
+                pass
         client.run(bconfig=bc, dry_run=True, domain=domain, beacon_id=cl_spec["bid"], pid=cl_spec["pid"],
                    computer=cl_spec["computer"], user=cl_spec["user"], process=cl_spec["process"], internal_ip=cl_spec["ip"],
                    arch=cl_spec["arch"], barch=cl_spec["barch"], high_integrity=cl_spec["hi"],
